@@ -25,6 +25,7 @@ ASSUMPTIONS = ['two histories reaching the same hidden-state digest have the sam
                'platform is bit-reproducible with one torch thread (self-test: every pristine reference is computed twice in separate processes)']
 CHUNK = 1
 MIXED = ['dwt_per', 'dtf_a', 'scat1', 'dwt1d_pc']          # modules that also receive a call with an input of the other float dtype
+SHORT_HARNESSES = ['two_constructs', 'construct_vs_call', 'f32_vs_f64']      # few hundred scheduling points per execution
 BOUND2_QUICK = ['same_instance_two_inputs', 'inverse_dtcwt_twice', 'scat_same_instance']   # the other harnesses get bound 2 in the thorough tier
 HARNESSES = ['two_constructs', 'same_instance_two_inputs', 'inverse_dtcwt_twice', 'construct_vs_call', 'f32_vs_f64', 'scat_same_instance']
 
@@ -49,7 +50,7 @@ def depth(tier):
 
 def bounds(tier):
     return {'history_depth': depth(tier), 'alphabet': len(all_ops()), 'pool': purity.ORDER, 'call_pairs': 'all ordered pairs of the 32 calls',
-            'schedule_bounds': {'every_line': 1 if tier == 'quick' else 2, 'visible_lines': ('2 on %s' % BOUND2_QUICK) if tier == 'quick' else 3}, 'harnesses': HARNESSES}
+            'schedule_bounds': {'every_line': 1 if tier == 'quick' else ('2 on %s, 1 elsewhere' % SHORT_HARNESSES), 'visible_lines': ('2 on %s' % BOUND2_QUICK) if tier == 'quick' else '2 on all harnesses, 3 on scat_same_instance'}, 'harnesses': HARNESSES}
 
 
 def plan(tier):
@@ -85,13 +86,17 @@ def plan(tier):
     for h in HARNESSES:
         items.append({'kind': 'free', 'harness': h, 'runs': 20 if tier == 'quick' else 100})
         for order in (0, 1):
-            for r in range(6):
-                items.append({'kind': 'sched', 'harness': h, 'order': order, 'bound': 1 if tier == 'quick' else 2, 'only_visible': False, 'part': [6, r]})
-            nparts = 8 if tier == 'quick' else 16
+            # every library line is a scheduling point: bound 1 (thorough: bound 2 on the harnesses whose executions are short enough)
+            b_all = 2 if (tier == 'thorough' and h in SHORT_HARNESSES) else 1
+            for r in range(6 if b_all == 1 else 16):
+                items.append({'kind': 'sched', 'harness': h, 'order': order, 'bound': b_all, 'only_visible': False, 'part': [6 if b_all == 1 else 16, r]})
+            # scheduling points only at lines that can touch shared state: bound 2 (quick: three harnesses, one thread order each)
             if tier == 'quick' and (h not in BOUND2_QUICK or order != BOUND2_QUICK.index(h) % 2):
                 continue
+            b_vis = 3 if (tier == 'thorough' and h == 'scat_same_instance') else 2
+            nparts = 8 if tier == 'quick' else 16
             for r in range(nparts):
-                items.append({'kind': 'sched', 'harness': h, 'order': order, 'bound': 2 if tier == 'quick' else 3, 'only_visible': True, 'part': [nparts, r]})
+                items.append({'kind': 'sched', 'harness': h, 'order': order, 'bound': b_vis, 'only_visible': True, 'part': [nparts, r]})
     items.sort(key=lambda it: 0 if it['kind'] == 'sched' and it['only_visible'] else (1 if it['kind'] == 'sched' else 2))   # longest first
     return items
 
